@@ -187,7 +187,8 @@ def conversation(run, pv, rng, length, threshold, abrupt, label,
          'compression_switched_on_in_play': play_compress,
          'kinds': [h[0] for h in hist][:20]}
     try:
-        conn = pc.make_connection(server.port, rec, allowed_versions={pv})
+        conn = pc.make_connection(server.port, rec, allowed_versions={pv},
+                                  decoy=label % 3 == 0)
         conn.vf_rng = rng
         conn.vf_short_reads = short_reads     # partial TCP delivery
         if warmup:
@@ -219,6 +220,9 @@ def conversation(run, pv, rng, length, threshold, abrupt, label,
                 return 'done', None
             return 'inconclusive', 'server script: %r' % (server.errors[:1],)
         run.count('conversations')
+        if getattr(rec, 'decoy', None) is not None:
+            rec.decoy.verdict(run, w)
+            run.count('conversations.with_decoy_object')
         if play_compress:
             run.count('conversations.play_state_compression')
         if encrypted:
@@ -317,6 +321,8 @@ def conversation(run, pv, rng, length, threshold, abrupt, label,
                 run.count('abrupt_conversations.reset')
         return 'done', w
     finally:
+        if getattr(rec, 'decoy', None) is not None:
+            rec.decoy.port.close()
         server.stop()
         try:
             conn.disconnect(immediate=True)
